@@ -57,8 +57,17 @@ func (h *HeapState) clone() *HeapState {
 
 // ArrInfo describes a heap array family.
 type ArrInfo struct {
-	Name string
-	Sort string
+	Name    string
+	Sort    string
+	RefKind int // 1: cells hold references (pointer/map values); 2: cells hold maps from keys to references
+}
+
+func isRefType(t types.Type) bool {
+	switch types.Unalias(t).Underlying().(type) {
+	case *types.Pointer, *types.Map:
+		return true
+	}
+	return false
 }
 
 // Heap registry lives in World (shared across functions).
@@ -73,7 +82,7 @@ func (w *World) heapArr(name, sort string) *ArrInfo {
 	if a, ok := w.heap.arrs[name]; ok {
 		return a
 	}
-	a := &ArrInfo{name, sort}
+	a := &ArrInfo{Name: name, Sort: sort}
 	w.heap.arrs[name] = a
 	return a
 }
@@ -82,7 +91,11 @@ func (w *World) fieldArr(t types.Type, idx int) *ArrInfo {
 	si := w.S.structInfo(t)
 	si.Fields[idx] = true
 	f := si.T.Field(idx)
-	return w.heapArr("H!"+strings.TrimPrefix(si.Sort, "V_")+"!"+sanitize(f.Name()), "(Array Int "+w.S.SortOf(f.Type())+")")
+	a := w.heapArr("H!"+strings.TrimPrefix(si.Sort, "V_")+"!"+sanitize(f.Name()), "(Array Int "+w.S.SortOf(f.Type())+")")
+	if isRefType(f.Type()) {
+		a.RefKind = 1
+	}
+	return a
 }
 
 func (w *World) boxArr(t types.Type) *ArrInfo {
@@ -93,7 +106,18 @@ func (w *World) boxArr(t types.Type) *ArrInfo {
 func (w *World) mapArrs(m *types.Map) (dom, val *ArrInfo) {
 	ks, vs := w.S.SortOf(m.Key()), w.S.SortOf(m.Elem())
 	n := sanitize(ks) + "!" + sanitize(vs)
-	return w.heapArr("Md!"+n, "(Array Int (Array "+ks+" Bool))"), w.heapArr("Mv!"+n, "(Array Int (Array "+ks+" "+vs+"))")
+	mvArr := w.heapArr("Mv!"+n, "(Array Int (Array "+ks+" "+vs+"))")
+	if vs == "Int" {
+		// the value family is shared by all Int-sorted value types: references only if this map type holds references
+		if isRefType(m.Elem()) {
+			if mvArr.RefKind == 0 {
+				mvArr.RefKind = 2
+			}
+		} else {
+			mvArr.RefKind = -1
+		}
+	}
+	return w.heapArr("Md!"+n, "(Array Int (Array "+ks+" Bool))"), mvArr
 }
 
 func (w *World) ghostArr(g *GhostField, ctx *ResCtx) *ArrInfo {
@@ -230,6 +254,9 @@ func (e *Env) arr(a *ArrInfo, h *HeapState) string {
 	}
 	v := a.Name + "@0"
 	e.vc.declare(v, a.Sort)
+	if e.vc.verNext != nil {
+		e.vc.verNext[v] = h.next
+	}
 	return v
 }
 
